@@ -273,6 +273,10 @@ func (c *Chunk) addLocked(chunk pb.Chunk) bool {
 	if c.shouldValidate(chunk) {
 		if !td.validator.AddChunk(chunk.Data, chunk.ChunkId) {
 			plog.Warningf("ignored a invalid chunk %s", key)
+			// the stream is known to be damaged, abandon it so its remaining
+			// chunks can not complete and finalize it
+			c.removeTempDir(chunk)
+			c.reset(key)
 			return false
 		}
 	}
